@@ -127,19 +127,17 @@ class BranchingList:
             else:
                 raise Exception(f"Invalid condition:", node.code)
             case_id = fr"{Sign.CONDITION}{m.group(2)}"
-            if path_new==path_old:  # same branch
+            # close openned branches unitil the same or an enclosing branch is reached
+            while self.state and not path_new.startswith(path_old):
+                self._close_branch()
+                if self.state:
+                    id_old = self._get_case_id()
+                    path_old = self.cases[id_old].path
+                else:
+                    path_old = ''
+            if self.state and path_new==path_old:  # same branch
                 branch_part = self._switch_case(case_id, node.case_type)
-            elif path_new<path_old: # lower branch
-                # close openned branches unitil the same branch is reached
-                while path_new!=path_old:
-                    self._close_branch()
-                    if self.state:
-                        id_old = self._get_case_id()
-                        path_old = self.cases[id_old].path
-                    else:
-                        path_old = ''
-                branch_part = self._switch_case(case_id, node.case_type)
-            else:                   # new branch
+            else:                                  # new branch
                 branch_part = self._open_branch(case_id)
             branch_id = self._get_branch_id()
             self.cases[case_id] = Case(
